@@ -222,6 +222,69 @@ impl Phase for AstExhaustive {
     }
 }
 
+/// Leaves that look like something else: digit-initial words ending in e/E (a sign after them must stay a sign unless
+/// digits follow), identifiers containing typographic operator look-alikes, text constants made of digits and signs.
+/// All one-operator trees over all ordered leaf pairs, and the two-operator trees under rotating leaf choices.
+fn hostile_leaf(k: usize) -> Ast {
+    const READS: [&str; 14] = [
+        "2e", "1E", "30e", "2.5e", "7E", "a\u{2212}b", "c\u{d7}d", "p\u{f7}q", "m\u{2264}n", "m\u{2265}n", "m\u{2260}n", "a", "b", "e1",
+    ];
+    let consts: [RV; 9] = [
+        RV::Str("3".into()),
+        RV::Str("+3".into()),
+        RV::Str("10".into()),
+        RV::Str("".into()),
+        RV::Str("e5".into()),
+        RV::Int(3),
+        RV::Int(10),
+        RV::Float(2.5),
+        RV::Bool(true),
+    ];
+    let k = k % (READS.len() + consts.len());
+    if k < READS.len() {
+        Ast::Read(READS[k].into())
+    } else {
+        Ast::Const(consts[k - READS.len()].clone())
+    }
+}
+const HOSTILE_LEAVES: usize = 23;
+
+fn hostile_leaf_asts(rotations: usize) -> Vec<Ast> {
+    let mut all = Vec::new();
+    for l0 in 0..HOSTILE_LEAVES {
+        for l1 in 0..HOSTILE_LEAVES {
+            all.append(&mut enumerate_asts_with(1, &mut |_, pos| hostile_leaf(if pos == 0 { l0 } else { l1 })));
+        }
+    }
+    for rot in 0..rotations {
+        let mut two: Vec<Ast> = enumerate_asts_with(2, &mut |i, pos| hostile_leaf(i * 7 + pos * 5 + rot * 3 + (i / 11) * pos));
+        // keep the two-operator trees only (the one-operator ones are covered exhaustively above)
+        all.extend(two.drain(28.min(two.len())..));
+    }
+    all
+}
+
+struct HostileLeaves {
+    asts: Vec<Ast>,
+}
+
+impl Phase for HostileLeaves {
+    fn name(&self) -> String {
+        "look-alike leaves (mantissa-e words, typographic operator characters in names, digit text) x all operators".into()
+    }
+    fn len(&self) -> u64 {
+        self.asts.len() as u64 * 2
+    }
+    fn run(&mut self, idx: u64, r: &mut Rng, out: &mut Out) {
+        let ast = self.asts[(idx / 2) as usize].clone();
+        out.count("look-alike leaf trees");
+        match idx % 2 {
+            0 => check_ast(out, &ast, Parens::Minimal, None, false, "precedence"),
+            _ => check_ast(out, &ast, Parens::Random, Some(r), true, "precedence"),
+        }
+    }
+}
+
 struct AstRandom {
     n: u64,
 }
@@ -392,6 +455,9 @@ pub fn phases(cfg: &Cfg) -> Vec<Box<dyn Phase>> {
         }),
         Box::new(AstExhaustive {
             asts: enumerate_asts(3),
+        }),
+        Box::new(HostileLeaves {
+            asts: hostile_leaf_asts(if t { 40 } else { 6 }),
         }),
         Box::new(LongChains {
             n: cfg.n(1_500, 60_000),
